@@ -20,7 +20,7 @@ use std::collections::BTreeMap;
 
 pub fn run_case(ctx: &Ctx, case: u64, ev: &mut Ev) {
     let mut rng = Rng::derive(ctx.seed, "C07", case);
-    rng.big = ctx.tier == crate::Tier::Thorough && rng.chance(0.2);
+    rng.big = crate::draw_big(ctx, &mut rng);
     if rng.chance(0.65) {
         run_pair(case, &mut rng, ev, "c07", false);
     } else {
